@@ -67,7 +67,9 @@ class Memory(object):
             d = self.over.setdefault((x, y), {})
             for a, b in pairs:
                 d.setdefault(a, b)          # first entry wins (association list)
-        self.stored = {}
+        self.stored = {}          # (chip, address) -> (stamp, byte)
+        self.fills = []           # big word fills kept as intervals: (stamp, chip, base, nbytes, 4 bytes of the word)
+        self.clock = 0
 
     def initial(self, chip, a):
         o = self.over.get(chip)
@@ -75,18 +77,48 @@ class Memory(object):
             return o[a]
         return pattern_byte(self.seed, chip, a)
 
+    def current(self, chip, a):
+        """(stamp, byte) of the latest store to the address, or None"""
+        best = self.stored.get((chip, a))
+        for st, c, base, n, word in self.fills:
+            if c == chip and base <= a < base + n and (best is None or st > best[0]):
+                best = (st, word[(a - base) % 4])
+        return best
+
     def get(self, chip, a):
-        v = self.stored.get((chip, a))
-        return self.initial(chip, a) if v is None else v
+        v = self.current(chip, a)
+        return self.initial(chip, a) if v is None else v[1]
 
     def put(self, chip, a, b):
-        self.stored[(chip, a)] = b & 0xff
+        self.clock += 1
+        self.stored[(chip, a)] = (self.clock, b & 0xff)
+
+    def fill(self, chip, base, n, word):
+        """n bytes from base (a multiple of 4 bytes) become copies of the 4-byte string `word`: byte by byte when
+        small, as one interval when big (a fill of megabytes is not spelt out)"""
+        if n <= BIG_FILL:
+            for i in range(n):
+                self.put(chip, base + i, word[i % 4])
+        else:
+            self.clock += 1
+            self.fills.append((self.clock, chip, base, n, bytes(word)))
 
     def diff(self):
-        """every byte of the machine that differs from its initial value, as runs of consecutive addresses:
-        [[x, y, first address, hex bytes], ...] sorted"""
-        cells = sorted((c[0], c[1], a, b) for (c, a), b in self.stored.items() if b != self.initial(c, a))
-        return pack_runs(cells)
+        """every byte of the machine OUTSIDE the big-fill intervals that differs from its initial value, as runs of
+        consecutive addresses [[x, y, first address, hex bytes], ...] sorted (bytes stored after a big fill inside
+        its interval are listed too); the big fills themselves are reported by big_fills()"""
+        cells = []
+        for (c, a), (st, b) in self.stored.items():
+            cur = self.current(c, a)
+            if cur[0] == st and (b != self.initial(c, a) or any(f[1] == c and f[2] <= a < f[2] + f[3] for f in self.fills)):
+                cells.append((c[0], c[1], a, b))
+        return pack_runs(sorted(cells))
+
+    def big_fills(self):
+        return [[c[0], c[1], base, n, word.hex()] for st, c, base, n, word in self.fills]
+
+
+BIG_FILL = 65536
 
 
 class SimMachine(object):
@@ -98,6 +130,7 @@ class SimMachine(object):
         self.boot = tuple(boot)
         self.log = []          # one entry per datagram executed: dict(x, y, p, cmd, args, data, rc, reply)
         self.cache = {}        # transmission index -> reply fields (a duplicated reply is the same datagram)
+        self.refused = []      # return codes with which the machine refused a command without executing it
 
     def neighbour(self, chip, link):
         dx, dy = LINK_DELTA.get(link, (0, -1))
@@ -143,10 +176,7 @@ class SimMachine(object):
             self.write_units(chip, a1, a2, UNITS[a3], data)
             return RC_OK, (), b""
         if cmd == CMD_FILL:
-            word = struct.pack("<I", a2)
-            base = a1 - a1 % 4
-            for i in range(4 * (a3 // 4)):
-                self.mem.put(chip, base + i, bytearray(word)[i % 4])
+            self.mem.fill(chip, a1 - a1 % 4, 4 * (a3 // 4), bytearray(struct.pack("<I", a2)))
             return RC_OK, (), b""
         if cmd == CMD_LINK_READ:
             if a2 > self.buffer_size:
@@ -177,6 +207,7 @@ class SimMachine(object):
         chip = self.boot if (dx, dy) == (255, 255) else (dx, dy)
         if forced_rc is not None and forced_rc != RC_OK:
             rc, rargs, rdata = forced_rc, (), b""
+            self.refused.append(forced_rc)
         elif tx is not None and tx in self.cache:
             rc, rargs, rdata = self.cache[tx]
         else:
